@@ -852,7 +852,9 @@ def run_all(tier, jobs):
         r["notes"] = [f"[{name}] {n}" for n in r["notes"]]
     chains = _run_chains(tier)
     chains["counters"] = {f"alias-chains/{k}": v for k, v in chains["counters"].items()}
-    return merge([main, moves, chains])
+    merges = _run_merges(tier)
+    merges["counters"] = {f"stub-merges/{k}": v for k, v in merges["counters"].items()}
+    return merge([main, moves, chains, merges])
 
 
 # ---- family CH: chains of aliases of aliases ------------------------------------------------------------------------------------------
@@ -938,8 +940,91 @@ def _run_chains(tier):
     return acc.result()
 
 
+# ---- family MS: a module and its stubs set under one name, members of the same name and of different kinds ---------------------------------
+# m.sub is set twice (stubs then regular module, or the reverse); both declare `h` (stubs: a function; regular module: a function, an attribute, a class, or nothing) and the
+# stubs declare `only_stub`; an alias n.ah -> m.sub.h (and n.ao -> m.sub.only_stub) is resolved, or not, BEFORE the second set_member.  Afterwards: one module at m.sub, every
+# member's parent is its container, every object is retrievable by its own path, and the aliases reach what is at their target path now.
+def _run_merges(tier):
+    boot.boot()
+    import griffe
+    from pathlib import Path
+
+    from mc.core.driver import Acc
+
+    acc = Acc()
+    for order in ("stubs-first", "regular-first"):
+        for rk in ("function", "attribute", "class", "absent"):
+            for resolved in (False, True):
+                for api in ("name", "dotted"):
+                    coll = griffe.ModulesCollection()
+                    m = griffe.Module("m", filepath=Path("m/__init__.py"))
+                    n = griffe.Module("n", filepath=Path("n.py"))
+                    coll.set_member("m", m)
+                    coll.set_member("n", n)
+                    stub = griffe.Module("sub", filepath=Path("m/sub.pyi"))
+                    stub.set_member("h", griffe.Function("h", returns="int"))
+                    stub.set_member("only_stub", griffe.Function("only_stub"))
+                    reg = griffe.Module("sub", filepath=Path("m/sub.py"))
+                    if rk != "absent":
+                        reg.set_member("h", {"function": lambda: griffe.Function("h"), "attribute": lambda: griffe.Attribute("h", value="1"), "class": lambda: griffe.Class("h")}[rk]())
+                    ah, ao = griffe.Alias("ah", "m.sub.h"), griffe.Alias("ao", "m.sub.only_stub")
+                    n.set_member("ah", ah)
+                    n.set_member("ao", ao)
+                    first, second = (stub, reg) if order == "stubs-first" else (reg, stub)
+                    case = {"history": ["MS: " + order, f"regular h: {rk}", f"aliases resolved before the second set_member: {resolved}", f"set_member({api})"]}
+                    probs = []
+                    try:
+                        m.set_member("sub", first)
+                        if resolved:
+                            for a in (ah, ao):
+                                try:
+                                    a.resolve_target()
+                                except griffe.AliasResolutionError:
+                                    pass  # (nothing there yet: regular module first, without that member)
+                        if api == "name":
+                            m.set_member("sub", second)
+                        else:
+                            coll.set_member("m.sub", second)
+                    except Exception as e:  # noqa: BLE001
+                        probs.append((f"MS-raise/{type(e).__name__}", f"raised {e!r}"))
+                    if not probs:
+                        sub = coll["m.sub"]
+                        if sub.parent is not m or m.members["sub"] is not sub:
+                            probs.append(("MS-tree/module", "m.sub: parent / container disagree"))
+                        for name, mem in sub.members.items():
+                            if mem.parent is not sub:
+                                probs.append(("MS-parent", f"m.sub.{name}: parent is {getattr(mem.parent, 'path', None)!r} ({getattr(mem.parent, 'filepath', None)})"))
+                            if coll.get_member(mem.path) is not mem:
+                                probs.append(("MS-own-path", f"m.sub.{name} says its path is {mem.path!r}; the collection has another object there"))
+                        if "only_stub" not in sub.members or (rk != "absent" and sub.members["h"].kind.value != rk):
+                            probs.append((f"MS-members/{rk}", f"members of m.sub after the merge: {[(k, v.kind.value) for k, v in sub.members.items()]}"))
+                        for a, tname in ((ah, "h"), (ao, "only_stub")):
+                            try:
+                                ft = a.final_target
+                            except Exception as e:  # noqa: BLE001
+                                probs.append((f"MS-alias-raise/{type(e).__name__}/{tname}", f"n.{a.name}.final_target raised {e!r}"))
+                                continue
+                            if ft is not sub.members.get(tname):
+                                kinds = "same-kind" if (tname == "only_stub" or rk in ("function", "absent")) else "kind-mismatch"
+                                probs.append((f"MS-alias-stale/{kinds}/{'resolved-before' if resolved else 'unresolved-before'}", f"n.{a.name} -> m.sub.{tname} reaches an object that is not the member at that path any more ({ft.kind.value} vs {sub.members[tname].kind.value if tname in sub.members else None})"))
+                            elif a._target is not None and ft.aliases.get(a.path) is not a:
+                                probs.append(("MS-not-listed", f"n.{a.name} is resolved to m.sub.{tname} but not listed there under its path"))
+                    acc.states += 1
+                    acc.transitions += 2
+                    acc.traces += 1
+                    acc.case(case, outcome="MS:" + ("ok" if not probs else probs[0][0].split("/")[0]), nontrivial=True)
+                    acc.observe([p_[0] for p_ in probs])
+                    for key, summary in probs:
+                        acc.violation(key, f"{order}, regular h is {rk}, aliases {'resolved' if resolved else 'unresolved'} before ({api}): {summary}", case, None, size=1)
+    acc.notes.append("[stub-merges] 2 orders x 4 kinds of the regular member x aliases resolved or not x 2 key forms")
+    return acc.result()
+
+
 def replay(case):
     boot.boot()
+    if case["history"] and case["history"][0].startswith("MS: "):
+        res = _run_merges("quick")
+        return [(k, v["summary"], v["detail"]) for k, v in res["violations"].items()]
     if case["history"] and case["history"][0].startswith("CH: "):
         res = _run_chains("quick")
         return [(k, v["summary"], v["detail"]) for k, v in res["violations"].items()]
